@@ -154,6 +154,7 @@ class Interp:
         self.depth_seen = 0
         self.events = {}
         self.hooks = None        # optional observer: fn(event, *args)
+        self.resolutions = None  # optional set of (use_pos, decl_pos) pairs (C04 renaming)
 
     # ------------------------------------------------------------------ helpers
     def p(self, node):
@@ -178,6 +179,7 @@ class Interp:
         res = Result()
         scope = {"print": [SV(MBuiltin("print", self.b_print)), (0, 0)]}
         scopes = [scope]
+        self.global_scope = scope
         try:
             try:
                 self.exec_seq(stmts, scopes)
@@ -199,6 +201,7 @@ class Interp:
         res.stmts = self.nstmts
         res.max_depth = self.depth_seen
         res.events = self.events
+        res.global_scope = self.global_scope
         return res
 
     def _stack_lines(self, stack=None):
@@ -432,10 +435,12 @@ class Interp:
                 prev = top[name][1]
                 raise self.fail(self.err("AlreadyInScope", pos, [name, prev[0] if prev else "?", prev[1] if prev else "?"], pinned=True))
             top[name] = [rhs, pos]
+            if self.resolutions is not None and pos is not None:
+                self.resolutions.add((tuple(pos), tuple(pos), name))
             self.ev("declare")
         else:
             if op is not None:
-                cur = self.lookup(name, scopes)
+                cur = self.lookup(name, scopes, pos)
                 if cur is None:
                     raise self.fail(self.err("Undefined", pos, [name], pinned=True))
                 rhs = SV(self.binop(op[0], op[1], cur.v, rhs.v))
@@ -444,15 +449,19 @@ class Interp:
                     sc[name][0] = rhs
                     if sc is not scopes[-1]:
                         self.ev("assign_outer")
+                    if self.resolutions is not None and pos is not None:
+                        self.resolutions.add((tuple(pos), tuple(sc[name][1] or (0, 0)), name))
                     return
             raise self.fail(self.err("Undefined", pos, [name], pinned=True))
 
-    def lookup(self, name, scopes):
+    def lookup(self, name, scopes, use_pos=None):
         for i in range(len(scopes) - 1, -1, -1):
             sc = scopes[i]
             if name in sc:
                 if i != len(scopes) - 1:
                     self.ev("resolve_outer")
+                if self.resolutions is not None and use_pos is not None:
+                    self.resolutions.add((tuple(use_pos), tuple(sc[name][1] or (0, 0)), name))
                 return sc[name][0]
         return None
 
@@ -546,7 +555,7 @@ class Interp:
         if t is A.Int:
             return SV(e.n)
         if t is A.Var:
-            v = self.lookup(e.name, scopes)
+            v = self.lookup(e.name, scopes, pos or (self.r.slotpos.get(id(e)) if self.r is not None else None))
             if v is None:
                 raise self.fail(self.err("Undefined", pos, [e.name], pinned=True))
             return v
@@ -632,7 +641,7 @@ class Interp:
                         pe = unparen(pr.e)
                         if not isinstance(pe, A.Var):
                             raise self.fail(self.err("ObjectPropShorthandNotVar", self.p(pr.e)))
-                        v = self.lookup(pe.name, scopes)
+                        v = self.lookup(pe.name, scopes, self.p(pr.e))
                         if v is None:
                             raise self.fail(self.err("Undefined", self.p(pr.e), [pe.name], pinned=True))
                         props[pe.name] = v
@@ -961,3 +970,28 @@ def render(v, interp=None, depth=0):
 
 def run(stmts, rendered, **kw):
     return Interp(rendered, **kw).run(stmts)
+
+
+def heap_shape(values):
+    """Canonical description of the heap graph reachable from `values` (model values):
+    cells numbered by first visit, so two runs reach the same shape iff the strings match."""
+    ids = {}
+    out = []
+
+    def visit(v):
+        if isinstance(v, MList):
+            if id(v) in ids:
+                return "#%d" % ids[id(v)]
+            ids[id(v)] = len(ids)
+            return "L%d[%s]" % (ids[id(v)], ",".join(visit(x.v) for x in v.items))
+        if isinstance(v, MObj):
+            if id(v) in ids:
+                return "#%d" % ids[id(v)]
+            ids[id(v)] = len(ids)
+            return "O%d{%s}" % (ids[id(v)], ",".join("%s:%s" % (k, visit(v.props[k].v)) for k in sorted(v.props, key=key_order)))
+        if isinstance(v, (MFunc, MBuiltin)):
+            return "fn"
+        return type_name(v)[0]
+    for v in values:
+        out.append(visit(v))
+    return "|".join(out)
